@@ -66,18 +66,54 @@ PROBES = [
     '%p{c:d} a{@extend %p}',
     '@each $k, $v in (a: 1, b: 2) {.#{$k}{w:$v}}',
     '$m: (z: 1, a: 2, m: 3); a{b:inspect($m) map-keys($m)}',
+    # two @forward rules in one stylesheet, the first forwarding a core module; then users of that core module
+    '@forward "sass:list"; @forward "sass:string"; a{b:c}',
+    '@use "sass:list"; a{b:list.length(a b c) list.index(a b c, b)}',
+    '@use "sass:string"; a{b:string.length("abc") string.index("abc", "c")}',
+    '@forward "sass:math"; @forward "tmp/c05/extras"; a{b:c}',
+    '@use "sass:math"; a{b:math.round(2.5) math.max(1, 2)}',
+    '@use "sass:math"; a{b:math.$golden}',
+    '@forward "sass:map"; @forward "sass:list"; @forward "sass:color"; a{b:c}',
+    '@use "sass:map"; a{b:inspect(map.keys((a: 1))) map.get((a: 1), a)}',
+    '@use "tmp/c05/twofwd" as t; a{b:t.length(a b) t.nth(a b, 1)}',
+    '@use "tmp/c05/twofwd2" as t; a{b:t.round(2.5)}',
+    '@forward "sass:selector" as sel-*; @forward "sass:string"; a{b:c}',
+    '@forward "sass:meta" show inspect; @forward "sass:list"; a{b:c}',
+    # user modules re-exporting a core module, handed to meta.module-functions / module-variables; then the core module itself
+    '@use "sass:meta"; @use "sass:map"; @use "tmp/c05/reexp"; a{b:inspect(map.keys(meta.module-functions("reexp")))}',
+    '@use "sass:meta"; @use "sass:map"; @use "tmp/c05/fwd"; a{b:inspect(map.keys(meta.module-functions("fwd")))}',
+    '@use "sass:meta"; @use "sass:map"; @use "sass:math"; a{b:inspect(map.keys(meta.module-functions("math")))}',
+    '@use "sass:meta"; @use "sass:map"; @use "sass:math"; a{b:inspect(map.keys(meta.module-variables("math")))}',
+    '@use "sass:meta"; @use "sass:map"; @use "tmp/c05/reexp"; a{b:inspect(map.keys(meta.module-variables("reexp")))}',
+    '@use "sass:meta"; @use "tmp/c05/reexp"; a{b:meta.call(map-get(meta.module-functions("reexp"), "double"), 4)}',
+    '@use "sass:meta"; @use "sass:math"; a{b:map-has-key(meta.module-functions("math"), "double") map-has-key(meta.module-functions("math"), "floor")}',
+    '@use "sass:meta"; @use "sass:string"; @use "sass:map"; a{b:inspect(map.keys(meta.module-functions("string")))}',
+    '@use "sass:meta"; @use "tmp/c05/reexp_str" as r; a{b:inspect(map-keys(meta.module-functions("r")))}',
+    '@use "tmp/c05/reexp"; a{b:reexp.double(2) reexp.floor(2.5)}',
 ]
 STYLES = ["expanded", "compressed"]
 PRECS = [5, 10, 10, 2]
 
 
+FILES = {
+    "conf.scss": "$x: 1 !default;\nconf{x:$x}\n",
+    "extras.scss": "@function round($x){@return 42}\n$golden: 1.618;\n@mixin mx{e:f}\n",
+    "twofwd.scss": '@forward "sass:list";\n@forward "sass:string";\n',
+    "twofwd2.scss": '@forward "sass:math";\n@forward "extras";\n',
+    "reexp.scss": '@use "sass:math" as *;\n@function double($x){@return $x * 2}\n',
+    "fwd.scss": '@forward "sass:math";\n@function triple($x){@return $x * 3}\n',
+    "reexp_str.scss": '@use "sass:string" as *;\n@function shout($x){@return to-upper-case($x)}\n',
+}
+
+
 def ensure_files():
     d = os.path.join(WORK, "tmp", "c05")
     os.makedirs(d, exist_ok=True)
-    p = os.path.join(d, "conf.scss")
-    if not os.path.exists(p):
-        with open(p, "w") as f:
-            f.write("$x: 1 !default;\nconf{x:$x}\n")
+    for name, content in FILES.items():
+        p = os.path.join(d, name)
+        if not os.path.exists(p) or open(p).read() != content:
+            with open(p, "w") as f:
+                f.write(content)
 
 
 def gen_cases(ctx, tier):
